@@ -87,6 +87,16 @@ class ByteArray(list):
     pass
 
 
+class Closure:
+    """a function defined inside the function under evaluation, with the environment it closes over"""
+    def __init__(self, node: ast.FunctionDef, env: dict) -> None:
+        self.node = node
+        self.env = env
+
+    def __deepcopy__(self, memo):
+        return Closure(self.node, copy.deepcopy(self.env, memo))
+
+
 @dataclass
 class Path:
     env: dict
@@ -129,7 +139,19 @@ class TermEval:
         self.consts = consts or {}
         self.hash_ctors = hash_ctors
         self.forks = 0
+        self.methods: dict[str, ast.FunctionDef] = {}     # helpers of the class under evaluation, by name
+        self.depth = 0
         self.observe = None         # callback(call node, env) before a call is evaluated
+
+    @classmethod
+    def for_class(cls_, klass: ast.ClassDef, only: tuple[str, ...] | None = None) -> 'TermEval':
+        """an evaluator that also runs the helper methods of `klass` when the function under evaluation calls
+        them (`only`: restrict to these names)"""
+        ev = cls_(class_consts(klass))
+        ev.methods = {m.name: m for m in klass.body if isinstance(m, ast.FunctionDef)
+                      and (only is None or m.name in only)}
+        ev.class_names = (klass.name,)
+        return ev
 
     # ---- expressions --------------------------------------------------------------
     def text(self, e: ast.AST, env: dict) -> str:
@@ -412,6 +434,11 @@ class TermEval:
         f = e.func
         args = [self.eval(a, env) for a in e.args]
         kw = {k.arg: self.eval(k.value, env) for k in e.keywords if k.arg}
+        user = self._user_function(e, env)
+        if user is not None and not any(isinstance(a, ast.Starred) for a in e.args) and all(k.arg for k in e.keywords):
+            got = self._call_user(user[0], user[1], user[2], args, kw)
+            if got is not NotImplemented:
+                return got
         if cn == 'len' and len(args) == 1:
             v = args[0]
             if isinstance(v, (SymStr, list, tuple, str, bytes)):
@@ -573,6 +600,65 @@ class TermEval:
                     return None
         return NotImplemented
 
+    def _user_function(self, e: ast.Call, env: dict):
+        """(function node, environment to run it in, number of leading parameters bound implicitly) for a call of
+        a closure of the function under evaluation or of a method of its class, else None"""
+        f = e.func
+        if isinstance(f, ast.Name):
+            v = env.get(f.id)
+            if isinstance(v, Closure):
+                return v.node, v.env, 0
+            return None
+        if isinstance(f, ast.Attribute) and isinstance(f.value, ast.Name) and f.attr in self.methods \
+                and f.value.id in {'self', 'cls', 'clz', 'klass'} | set(self.class_names):
+            m = self.methods[f.attr]
+            static = any(norm(d) == 'staticmethod' for d in m.decorator_list)
+            return m, None, 0 if static else 1
+        return None
+
+    class_names: tuple = ()
+
+    def _call_user(self, node: ast.FunctionDef, closure_env, skip: int, args: list, kw: dict):
+        if self.depth >= 4:
+            return NotImplemented
+        a = node.args
+        if a.kwarg or a.posonlyargs:
+            return NotImplemented
+        params = [x.arg for x in a.args][skip:]
+        extra: list = []
+        if len(args) > len(params):
+            if a.vararg is None:
+                return NotImplemented
+            args, extra = args[:len(params)], args[len(params):]
+        env2 = dict(closure_env) if closure_env is not None else {}
+        if skip:
+            env2[a.args[0].arg] = Opaque(a.args[0].arg)
+        bound = dict(zip(params, args))
+        for k, v in kw.items():
+            if k not in params and k not in [x.arg for x in a.kwonlyargs] or k in bound:
+                return NotImplemented
+            bound[k] = v
+        defaults = dict(zip(params[len(params) - len(a.defaults):] if a.defaults else [], a.defaults))
+        for k, d in zip(a.kwonlyargs, a.kw_defaults):
+            if d is not None:
+                defaults[k.arg] = d
+        for name in params + [x.arg for x in a.kwonlyargs]:
+            if name not in bound:
+                if name not in defaults:
+                    return NotImplemented
+                bound[name] = self.eval(defaults[name], env2)
+        env2.update(bound)
+        if a.vararg is not None:
+            env2[a.vararg.arg] = tuple(extra)
+        self.depth += 1
+        try:
+            paths = [q for q in self.run(node, env2) if q.done == 'return']
+        finally:
+            self.depth -= 1
+        if len(paths) != 1:
+            return NotImplemented
+        return paths[0].result
+
     def truth(self, v) -> bool:
         if isinstance(v, (Opaque, Xor, Digest, Hash)):
             raise Undecided
@@ -685,6 +771,12 @@ class TermEval:
                 q = self._fork(p)
                 p.notes.append(f'assume {norm(st.test)}')
                 q.notes.append(f'assume not ({norm(st.test)})')
+                try:
+                    shown = repr(_freeze(self.eval(st.test, env)))
+                except Exception:
+                    shown = '?'
+                p.notes.append(f'value+ {shown}')       # the same assumption in terms of what the test evaluates to
+                q.notes.append(f'value- {shown}')
                 return self._block(st.body, [p]) + self._block(st.orelse, [q])
             return self._block(st.body if t else st.orelse, [p])
         if isinstance(st, ast.For):
@@ -714,8 +806,10 @@ class TermEval:
         if isinstance(st, ast.Try):
             out = self._block(st.body, [p])
             return self._block(st.finalbody, out) if st.finalbody else out
-        if isinstance(st, (ast.Pass, ast.Import, ast.ImportFrom, ast.Global, ast.Nonlocal, ast.FunctionDef,
-                           ast.ClassDef)):
+        if isinstance(st, ast.FunctionDef):
+            env[st.name] = Closure(st, env)
+            return [p]
+        if isinstance(st, (ast.Pass, ast.Import, ast.ImportFrom, ast.Global, ast.Nonlocal, ast.ClassDef)):
             return [p]
         self._havoc([st], env)
         return [p]
